@@ -7,7 +7,7 @@ ops (strings hex-encoded, `-` = empty):
   encdelta  <nodeid> <addr> <entries> <max> <id>,<addr>[/<key>,<value>,<version>,<internal>,<deleted>]* ...
       → `pkt=<hex of the packet> dec=<decoded value of that packet>` or `err` (header > max)
   decdigest <hex> | decdelta <hex>     → `dec=<decoded value>` (canonical packets only)
-  local <max> <k>,<v>.. | pkt <hex> | conn <hex> | pipe <hex>
+  local <max> <k>,<v>.. | pkt <hex> | conn <hex> | pipe <hex> | rep <kind> <prefix> <unit> <n> <suffix> | scale <family> <n>
                                        malformed stream for the real handlers: implementation
                                        only, both sides print `skip`
 -/
@@ -92,6 +92,8 @@ def step (_ : Unit) : List String → Unit × String
   | "pkt" :: _ => ((), "skip")
   | "conn" :: _ => ((), "skip")
   | "pipe" :: _ => ((), "skip")
+  | "rep" :: _ => ((), "skip")
+  | "scale" :: _ => ((), "skip")
   | "local" :: _ => ((), "skip")
   | _ => ((), "bad-op")
 
